@@ -36,7 +36,7 @@ def next_record(sim):
         return common.gen_big_complex(sim, ["copy", "copy", "ctor", "pickle"])
     if x < sim.cfg["p_twin"] + sim.cfg["p_nested"] + 0.02:
         return {"uid": g.next_uid(), "op": "cyclic_twin", "kind": g.r.choice(["H", "DH", "SC"]),
-                "how": g.r.choice(["copy", "copy", "pickle", "ctor"]), "shape": g.r.randrange(4),
+                "how": g.r.choice(["copy", "copy", "pickle", "ctor"]), "shape": g.r.randrange(5),
                 "where": g.r.choice(["node", "edge", "net"])}
     return None
 
@@ -61,6 +61,8 @@ def do_cyclic_twin(sim, rec):
     w = sim.world
     xgi = sim.xgi
     kind, how, shape, where = rec["kind"], rec["how"], rec["shape"], rec["where"]
+    if shape == 4:
+        return do_identity_labels_twin(sim, rec)
     with warnings.catch_warnings():
         warnings.simplefilter("ignore")
         if kind == "H":
@@ -134,4 +136,59 @@ def do_cyclic_twin(sim, rec):
             w.find({"C07"}, "cyclic_attribute_value_not_copied_independently", fake, kind,
                    f"{how}, {where} attributes, shape {shape}: {pr}")
             break
+    return None
+
+
+class Tok:
+    """a label that is hashed and compared by identity (a user-defined object without __eq__)"""
+
+    def __init__(self, name):
+        self.name = name
+
+    def __repr__(self):
+        return f"Tok({self.name})"
+
+
+def do_identity_labels_twin(sim, rec):
+    """"any labels": node labels that are compared by identity.  The twin must have as many nodes
+    and edges, every edge must still refer to nodes of the twin, degrees and attributes must
+    match; copy() and the constructor keep the label objects themselves."""
+    import pickle
+    import warnings
+    w = sim.world
+    xgi = sim.xgi
+    kind, how = rec["kind"], rec["how"]
+    a, b, c, d = Tok("a"), Tok("b"), Tok("c"), Tok("d")
+    with warnings.catch_warnings():
+        warnings.simplefilter("ignore")
+        if kind == "H":
+            A = xgi.Hypergraph([[a, b, c], [c, d]])
+        elif kind == "SC":
+            A = xgi.SimplicialComplex([[a, b, c], [c, d]])
+        else:
+            A = xgi.DiHypergraph([([a, b], [c]), ([c], [d])])
+        A.add_node(Tok("iso"))
+        A.set_node_attributes({a: {"color": "red"}})
+        w.stats["op:identity_labels_twin." + how] += 1
+        fake = dict(rec, op="identity_labels_twin:" + how)
+        try:
+            B = A.copy() if how == "copy" else (pickle.loads(pickle.dumps(A)) if how == "pickle" else type(A)(A))
+        except Exception as ex:  # noqa
+            w.find({"C07"}, "twin_failed_on_identity_labels", fake, kind, f"{how}: {type(ex).__name__}: {ex}")
+            return None
+        problems = []
+        if B.num_nodes != A.num_nodes or B.num_edges != A.num_edges:
+            problems.append(f"{B.num_nodes} nodes / {B.num_edges} edges, the source has {A.num_nodes} / {A.num_edges}")
+        else:
+            mem = (lambda X, e: set().union(*X.edges.dimembers(e))) if kind == "DH" else (lambda X, e: set(X.edges.members(e)))
+            if any(not mem(B, e) <= set(B.nodes) for e in B.edges):
+                problems.append("an edge of the twin refers to a label that is not a node of the twin")
+            if sorted(len(mem(B, e)) for e in B.edges) != sorted(len(mem(A, e)) for e in A.edges):
+                problems.append("edge sizes differ")
+            if sorted(len(v) for v in B.nodes.attrs.asdict().values()) != sorted(len(v) for v in A.nodes.attrs.asdict().values()):
+                problems.append("node attributes differ")
+            if how != "pickle" and set(map(id, B.nodes)) != set(map(id, A.nodes)):
+                problems.append("the node labels of the twin are not the source's label objects")
+        for pr in problems[:1]:
+            w.find({"C07"}, "identity_labels_not_preserved", fake, kind, f"{how}: {pr}")
     return None
